@@ -30,6 +30,7 @@ REQUIRED_LABELS = ["channel:label", "channel:hint", "channel:guidance", "channel
                    "channel:choice-extra", "channel:default", "channel:title", "channel:version", "channel:appearance", "channel:bind::",
                    "channel:instance::", "channel:body::", "channel:attribute::", "channel:style"]
 
+DYN_EXPR = re.compile(r"instance\('[^']*'\)/root/item\[name = 'c1'\]/label")
 SPECIAL = re.compile(r"[<>&\"']|\]\]>|<!--|&\w+;|&#|[\U00010000-\U0010ffff]")
 DEFAULT_SAFE = [a for a in gen.ADV_ATOMS if not any(ch in a for ch in "-+*|()[]{}/") and a not in ("\t", "\n")] + ["safe", "word"]
 TEXT_COLS = ("label", "hint", "guidance_hint", "constraint_message", "required_message")
@@ -56,6 +57,13 @@ def _cases(draw):
         s["attribute::plain"] = g.adv()
     if g.p("_", 0.7):
         s["version"] = g.adv()
+    if form.get("lists") and g.p("_", 0.1):
+        # the bare words "instance(" and, later in the same cell, a real instance('list') expression (documented dynamic label)
+        ln = form["lists"][0]["name"]
+        qs_ = [n for n, _ in model.walk(form["nodes"]) if n["k"] == "q" and "label" in n["c"] and "calculation" not in n["c"] and "trigger" not in n["c"]
+               and "${" not in n["c"]["label"]]
+        for n in qs_[: g.integer(1, 2)]:
+            n["c"]["label"] = g.pick(["see instance( and ", "instance( then ", "A instance( B "]) + f"instance('{ln}')/root/item[name = 'c1']/label" + g.pick(["", " end", " instance( again"])
     if g.p("_", 0.06):
         # documented switch: cells are taken as typed -- no trimming, no quote straightening, and "${" that is not a reference is text
         s["clean_text_values"] = g.pick(["no", "false"])
@@ -75,6 +83,10 @@ def benign(form):
     f = model.clone(form)
 
     def blank(s):
+        m = DYN_EXPR.search(s)
+        if m:
+            # a complete instance expression is structure (it becomes an <output/>), like a reference: keep it
+            return "x " + m.group(0) + " x"
         lits, rr = refs.split_source(s)
         out = []
         for i, lit in enumerate(lits):
@@ -130,6 +142,12 @@ def _evaluate(case) -> Outcome:
         return out
     if status == "rejected":
         out.label("outcome:rejected:" + common.err_class(res))
+        # text is data: a form may not be refused because of the characters of its texts (other than those XML cannot carry at all)
+        if common.CLEAN[0] and not any(common.XML_ILLEGAL_RE.search(x) for x in common.all_strings(form)):
+            s2, _ = common.run_form(benign(form))
+            out.checked("C06.accepts-any-text")
+            if s2 == "ok":
+                out.fail("C06.accepts-any-text", common.err_class(res)[:40], f"refused because of its text (the same form with benign text converts): {res}")
         return out
     out.label("outcome:accepted")
     try:
